@@ -94,6 +94,7 @@ def selftest_obligations():
     o.append(Obl("engine-selftest-regex", M, "pinned_regex", env={"VF_CONF": "miniA"}, timeout=150, family="engine-selftest", bound="E1/E2: pinned strings through a resolva-style regex"))
     o.append(Obl("engine-selftest-concat", M, "pinned_concat", env={"VF_CONF": "miniA"}, timeout=150, family="engine-selftest", bound="E10"))
     o.append(Obl("engine-selftest-dictkey", M, "pinned_dictkey", env={"VF_CONF": "miniA"}, timeout=150, family="engine-selftest", bound="E9"))
+    o.append(Obl("engine-selftest-normpath", M, "pinned_normpath", env={"VF_CONF": "miniA"}, timeout=150, family="engine-selftest", bound="E11: 14 pinned strings"))
     return o
 
 
